@@ -267,14 +267,19 @@ ContainmentMonitors(h, f, b, T, loud, nerr, opened, how, dk) ==
         \* file entries still listed unchanged whose blocks are all intact and unchanged
         untouched == {e \in SeqRange(fl) : e.k = "File" /\ e \in SeqRange(hl) /\ EntryReadable(f, e) /\ EntryReadable(h, e)
                          /\ FileBytes(f, e) = FileBytes(h, e)}
-        wrong == {e.p : e \in {x \in untouched : AncestorsAreDirs(T, x.p) /\ (x.p \notin DOMAIN T \/ T[x.p] # HT[x.p])}}
+        \* (its directories must still be listed too: a file whose directory entry sat in the damaged
+        \* hunk cannot be created, which is reported)
+        ListedDirs(p) == \A i \in 1..(Len(p) - 1) : \E d \in SeqRange(fl) : d.p = SubSeq(p, 1, i) /\ d.k = "Dir"
+        wrong == {e.p : e \in {x \in untouched : ListedDirs(x.p) /\ AncestorsAreDirs(T, x.p) /\ (x.p \notin DOMAIN T \/ T[x.p] # HT[x.p])}}
         \* files of the healthy version that did not come back exactly
         lostfiles == {e.p : e \in {x \in SeqRange(hl) : x.k = "File" /\ Affected(x)
                                           /\ (x.p \notin DOMAIN T \/ T[x.p] # HT[x.p])}}
     IN
        \* ("in every version that still opens")
        If(opened, {<<"UntouchedNotRestored", p>> : p \in wrong})
-  \cup If(how \in {"delete", "trunc0", "half", "garbage"} /\ lostfiles # {} /\ ~loud, {<<"AffectedSilent", lostfiles>>})
+  \* (not demanded when what is left is a state fault-free operation can produce, e.g. the last hunk
+  \* of an interrupted version gone: nothing can tell that from health)
+  \cup If(how \in {"delete", "trunc0", "half", "garbage"} /\ lostfiles # {} /\ ~loud /\ FormatViol(f) # {}, {<<"AffectedSilent", lostfiles>>})
   \* a block that is gone or no longer verifies: every file that needs it is reported, one by one
   \* (a flipped bit counts when the block no longer decodes to content matching its name)
   \cup If(dk.t = "Block" /\ ~BlockOK(f, dk.h) /\ lostfiles # {} /\ nerr < Cardinality(lostfiles),
